@@ -523,6 +523,41 @@ def two_open_stores(chk: Check):
         chk.fail(f'two stores open at the same time: {why}', {'special': 'two_open_stores'}, signature=None)
 
 
+def cross_file_scenarios(seed):
+    """Fixed histories: two species-indexed fields in different field sets; the first trajectory carries {CO2, H2O}
+    in the first and {CO2} in the second, the second trajectory the other way round, a third both in both.  In every
+    layout (the field sets in one file, in base + associated either way round, in two associated files, saved from
+    memory, with the later trajectories added in an append session) each trajectory fits its field sets, so it must be
+    accepted and read back exactly."""
+    def val(shape, sp, salt):
+        if shape == 'TS':
+            return {str(s): 1.5 + s + salt for s in sp}
+        if shape == 'TSP':
+            return {str(s): {'a': 1000 + 17 * s + salt} for s in sp}
+        return {str(s): [float(10 * salt + 4 * s + m) + 0.25 for m in range(4)] for s in sp}
+
+    def base(k):
+        return {'seed': 11 + k, 'flight_id': None, 'name': f'x{k}', 'unset_phases': False, 'scal': [1.0 + k, 2.0],
+                'phases': [1] * 9}
+    layouts = [('single', [], [], None), ('assoc', [2], [], None), ('assoc', [1], [], None), ('assoc', [1, 2], [], None),
+               ('assocn', [1, 2], [[1], [2]], None), ('assocn', [1, 2], [[2], [1]], None), ('saved', [2], [], None),
+               ('assoc', [2], [], 1), ('assocn', [1, 2], [[1], [2]], 2)]
+    out = []
+    for shape in ('TS', 'TSP', 'TSM'):
+        for q, (layout, apart, parts, append_at) in enumerate(layouts):
+            sets = [{'fields': [{'shape': shape, 'dtype': 'float64', 'req': True}]},
+                    {'fields': [{'shape': shape, 'dtype': 'float64', 'req': True},
+                                {'shape': 'T', 'dtype': 'int32', 'req': True}]}]
+            sp = [([0, 1], [0]), ([0], [0, 1]), ([0, 1], [0, 1])]
+            trajs = [{'n': 3 + k, 'base': base(k),
+                      'vals': {'1': [val(shape, a, k)], '2': [val(shape, b, k + 3), 7 + k]}}
+                     for k, (a, b) in enumerate(sp)]
+            uid = f'c03x{seed}_{shape}_{q}'
+            out.append({'uid': uid, 'fs_uid': uid, 'sets': sets, 'layout': layout, 'apart': apart, 'parts': parts,
+                        'trajs': trajs, 'out_of_dim': False, 'append_at': append_at})
+    return out
+
+
 def run(chk: Check):
     pin_hash_seed()
     chk.rule = ('stores of 1-3 trajectories (lengths 0, 1, 2-20, 21-300) with 1-3 freshly registered field sets of 1-5 '
@@ -589,6 +624,26 @@ def run(chk: Check):
         if c.get('append_at') is not None and not any(f['shape'] == 'TP' and f['dtype'] == 'str'
                                                       for fs in c['sets'] for f in fs['fields']):
             cases.append(c)
+    # one species list per store: a later trajectory carries, in a field of one field set / file, a species the first
+    # trajectory carried only in fields of ANOTHER field set / file (fixed scenarios, then generated histories whose
+    # later trajectories draw each field's species from everything the first trajectory uses anywhere)
+    for c in cross_file_scenarios(chk.seed):
+        cases.append(c)
+        chk.count('special:species-of-another-file:fixed')
+    for layout, want in (('assoc', 6), ('assocn', 6), ('saved', 4), ('single', 3), ('mapped', 3)):
+        got, tries = 0, 0
+        while got < chk.n(want, 8 * want) and tries < 60 * want:
+            tries += 1
+            c = U.gen_case(chk.rng, f'c03w{chk.seed}_{layout}_{tries}', force={'layout': layout, 'wide_species': True})
+            if any(f['shape'] == 'TP' and f['dtype'] == 'str' for fs in c['sets'] for f in fs['fields']):
+                continue
+            across_files, across_sets = U.cross_species(c)
+            if layout == 'saved' and not c['apart']:
+                continue
+            if across_files if layout in ('assoc', 'assocn', 'saved') else across_sets:
+                cases.append(c)
+                got += 1
+                chk.count(f'special:species-of-another-{"file" if across_files else "field-set"}:{c["layout"]}')
     check_cases(chk, cases, fixed)
     per_trajectory_string_hole(chk)
     two_open_stores(chk)
